@@ -21,14 +21,14 @@ type RaceReport struct {
 	Accesses []RaceAccess `json:"accesses"`
 	Raw      string       `json:"raw"`
 	// filled by classify
-	InSoy    bool   `json:"inSoy"`    // an access stack has a frame of github.com/robfig/soy
-	TopSoyFn string `json:"topSoyFn"` // innermost robfig/soy function of the first access that has one
-	Field    string    `json:"field"` // struct field containing the address, if it lies in a walked structure
-	Phase    string    `json:"phase"`
-	Origin   *Mismatch `json:"origin,omitempty"` // the program, data and configuration that was running
-	Fatal     string   `json:"fatal,omitempty"`     // set when the runtime aborted the program ("concurrent-map-writes", ...)
-	AddrIn    string   `json:"addressIn"`           // the field the raced address itself lies in
-	WriteSite string   `json:"writeSite"`           // file:line of the innermost robfig/soy frame of the writing access
+	InSoy     bool      `json:"inSoy"`    // an access stack has a frame of github.com/robfig/soy
+	TopSoyFn  string    `json:"topSoyFn"` // innermost robfig/soy function of the first access that has one
+	Field     string    `json:"field"`    // struct field containing the address, if it lies in a walked structure
+	Phase     string    `json:"phase"`
+	Origin    *Mismatch `json:"origin,omitempty"` // the program, data and configuration that was running
+	Fatal     string    `json:"fatal,omitempty"`  // set when the runtime aborted the program ("concurrent-map-writes", ...)
+	AddrIn    string    `json:"addressIn"`        // the field the raced address itself lies in
+	WriteSite string    `json:"writeSite"`        // file:line of the innermost robfig/soy frame of the writing access
 	depth     int
 }
 
